@@ -17,7 +17,7 @@ CHECK = {
     "units": [
         {
             # the real runCommand path: real server processes (the test binary re-executed) that die, garble or stall at start-up
-            "name": "c11-osproc", "pkg": CC, "harness": ["connectconformance/osproc_test.go", "connectconformance/c10_test.go", "connectconformance/c05_test.go", "connectconformance/peersim_test.go", "connectconformance/c11_test.go", "connectconformance/fakeproc_test.go", "connectconformance/gateutil_test.go"],
+            "name": "c11-osproc", "pkg": CC, "overlap": True, "harness": ["connectconformance/osproc_test.go", "connectconformance/c10_test.go", "connectconformance/c05_test.go", "connectconformance/peersim_test.go", "connectconformance/c11_test.go", "connectconformance/fakeproc_test.go", "connectconformance/gateutil_test.go"],
             "test": "^TestVerifOSProcRun$",
             "shards": {"quick": 28, "thorough": 32},  # the runs mostly sleep (the runner's 5-20 s timeouts), so more shards than cores
             "budget_s": {"quick": 120, "thorough": 600},
